@@ -814,6 +814,31 @@ example (hckk : Ckk2Optimal (id : Nat → Nat) id) (hgen : CkkGenComplete (id : 
   rnp_optimal hckk hgen (k := 3) (fuel := 1000) (b := ⟨[5, 6, 6], [[5], [2, 2, 2], [3, 3]]⟩)
     (by decide) (by decide) (by decide) rfl
 
+/-! ### RNP is not optimal for five bins
+
+  For five bins the odd case splits one sub-collection off and calls the even case on the rest with four bins; that
+  call returns the 4-way partition whose *own* spread is smallest (the first one found, in case of ties), not the
+  one that is best in combination with the bin split off.  Concretely, for the items `[11, 9, 9, 6, 6, 4, 4, 4]`
+  KK's first answer `[9, 10, 10, 11, 13]` (difference 4) is never improved although `[12, 12, 9, 11, 9]`
+  (difference 3) exists: after splitting off `{9}`, both `(10, 10, 11, 13)` and `(9, 11, 12, 12)` have spread 3
+  on their own, the first is found first, and with the `9` it gives difference 4 again.  (Found by exhaustive
+  search over all multisets of at most 8 values ≤ 12; confirmed on the Python implementation.) -/
+
+/-- **Counterexample**: `rnp` with five bins does not return an optimal partition. -/
+theorem rnp_not_optimal_five :
+    ∃ b : Bins Nat, rnp id id 5 true [11, 9, 9, 6, 6, 4, 4, 4] 1000 = .ok b ∧
+      Objective.minDiff.value b.sums false = 4 ∧
+      ¬ IsOptimalValue .minDiff 5 ([11, 9, 9, 6, 6, 4, 4, 4].map id) (Objective.minDiff.value b.sums false) := by
+  refine ⟨⟨[9, 10, 10, 11, 13], [[9], [6, 4], [6, 4], [11], [4, 9]]⟩, rfl, by decide, ?_⟩
+  intro hopt
+  have h := hopt.2 [3, 2, 4, 1, 1, 0, 0, 0] ⟨rfl, by decide⟩
+  revert h
+  decide
+
+/-- ... while `snp` does (as `snp_optimal` says it must): it returns sums `[12, 12, 9, 11, 9]` -/
+example : (snp id id 5 true [11, 9, 9, 6, 6, 4, 4, 4] 1000).toOption.map (·.sums) = some [12, 12, 9, 11, 9] := by
+  rfl
+
 end Prtpy.SNPOpt
 
 /-
@@ -823,6 +848,8 @@ Axiom audit (output of `#print axioms` observed with `lake env lean`):
   'Prtpy.SNPOpt.snp_optimal' depends on axioms: [propext, Classical.choice, Quot.sound]
 #print axioms Prtpy.SNPOpt.rnp_optimal
   'Prtpy.SNPOpt.rnp_optimal' depends on axioms: [propext, Classical.choice, Quot.sound]
+#print axioms Prtpy.SNPOpt.rnp_not_optimal_five
+  'Prtpy.SNPOpt.rnp_not_optimal_five' depends on axioms: [propext]
 #print axioms Prtpy.SNPOpt.snpRec_opt
   'Prtpy.SNPOpt.snpRec_opt' depends on axioms: [propext, Classical.choice, Quot.sound]
 #print axioms Prtpy.SNPOpt.rnpRec_odd_opt
